@@ -336,22 +336,66 @@ int main(int argc, char** argv) {
           withText = ex.run(e.choices, c2, body);
         }
         const vx::Exec& e = withText;
-        // key by the two access sites of the first report
+        // key by the two access sites of the first report.  Exploration runs with symbolize=0 (spawning the
+        // symbolizer for every report of every schedule is far too slow); the top frame of each of the two stacks is
+        // resolved here, once per case, from its module offset.
         std::string site;
         size_t p = e.stderrText.find("WARNING: ThreadSanitizer");
         std::string rep = p == std::string::npos ? e.stderrText : e.stderrText.substr(p);
+        auto symbolize = [](const std::string& off) {
+          char exe[512];
+          ssize_t n = readlink("/proc/self/exe", exe, sizeof exe - 1);
+          if (n <= 0) return off;
+          exe[n] = 0;
+          std::string cmd = "llvm-symbolizer -f -C -e '" + std::string(exe) + "' " + off + " 2>/dev/null";
+          FILE* f = popen(cmd.c_str(), "r");
+          if (!f) return off;
+          char l1[512] = "", l2[512] = "";
+          if (!fgets(l1, sizeof l1, f)) l1[0] = 0;
+          if (!fgets(l2, sizeof l2, f)) l2[0] = 0;
+          pclose(f);
+          std::string fn(l1), loc(l2);
+          while (!fn.empty() && (fn.back() == '\n' || fn.back() == ' ')) fn.pop_back();
+          while (!loc.empty() && (loc.back() == '\n' || loc.back() == ' ')) loc.pop_back();
+          size_t sl = loc.rfind('/');
+          if (sl != std::string::npos) loc = loc.substr(sl + 1);
+          size_t par = fn.find('(');
+          if (par != std::string::npos) fn = fn.substr(0, par);
+          return fn.empty() ? off : fn + "@" + loc;
+        };
         size_t q = 0;
-        for (int k = 0; k < 2; ++k) {
-          q = rep.find("#0 ", q);
-          if (q == std::string::npos) break;
-          size_t e2 = rep.find('\n', q);
-          std::string fr = rep.substr(q + 3, e2 - q - 3);
-          size_t sp = fr.find(" (");
-          if (sp != std::string::npos) fr = fr.substr(0, sp);
-          size_t ad = fr.find(" in ");
-          if (ad != std::string::npos) fr = fr.substr(ad + 4);
-          site += (k ? " <-> " : "") + fr;
-          q = e2;
+        int found = 0;
+        while (found < 2 && (q = rep.find("#", q)) != std::string::npos) {
+          // a frame line looks like "    #0 <something> (C06+0x986aa) ..." ; take the first NON-runtime frame of each stack
+          size_t eol = rep.find('\n', q);
+          std::string line = rep.substr(q, eol - q);
+          bool first = line.rfind("#0 ", 0) == 0;
+          size_t lp = line.find("+0x");
+          if (first && lp != std::string::npos) {
+            // walk down this stack until a frame outside the sanitizer runtime / interposition layer
+            size_t qq = q;
+            std::string chosen;
+            for (int depth = 0; depth < 8; ++depth) {
+              size_t e3 = rep.find('\n', qq);
+              std::string ln = rep.substr(qq, e3 - qq);
+              size_t l2p = ln.find("+0x");
+              if (l2p == std::string::npos) break;
+              size_t r2 = ln.find(')', l2p);
+              std::string off = ln.substr(l2p + 1, r2 - l2p - 1);
+              std::string sym = symbolize(off);
+              chosen = sym;
+              if (sym.find("pthread_mutex") == std::string::npos && sym.find("interpose") == std::string::npos &&
+                  sym.find("__tsan") == std::string::npos && sym.find("__interceptor") == std::string::npos && sym.find("operator new") == std::string::npos &&
+                  sym.find("operator delete") == std::string::npos && sym.find("std::") != 0 && sym.find("memcpy") == std::string::npos)
+                break;
+              if (e3 == std::string::npos) break;
+              qq = rep.find('#', e3);
+              if (qq == std::string::npos) break;
+            }
+            site += (found ? " <-> " : "") + chosen;
+            ++found;
+          }
+          q = eol == std::string::npos ? rep.size() : eol;
         }
         c.viol("race:" + site + " in " + name, name, "schedule " + e.scheduleStr() + ": ThreadSanitizer reports\n" + rep.substr(0, 1800));
       }
